@@ -130,6 +130,18 @@ def plan(tier, seed):
     cases = [{'kind': 'scripted', 'h0': -1, 'n': 0, 'weight': 2.0}]
     for h0 in range(0, n, HIST_PER_CASE):
         cases.append({'kind': 'random', 'h0': h0, 'n': min(HIST_PER_CASE, n - h0)})
+    # the same contracts on the PopulationBalanceModel instances that live inside real precipitation runs
+    # (PrecipitateModel and GrainGrowthModel drive extend / re-mesh / adjust / update themselves)
+    from vlib import precip_gen
+    for j in range(6 if tier == 'quick' else 40):
+        rng = core.case_rng(seed, PROPERTY, 900000 + j)
+        cfg = precip_gen.gen_config(rng, system=['alzr', 'nialcr', 'almgsi'][j % 3], tier=tier, allow_noniso=False,
+                                    grid_class=('in_range' if j % 2 else None))
+        cfg['pbm'].update({'cMax': 3e-9, 'bins': 30, 'minBins': 24, 'maxBins': 48})      # frequent extension / re-meshing
+        cfg['max_steps'] = min(cfg['max_steps'], 700)
+        cases.append({'kind': 'model_run', 'cfg': cfg, 'weight': 60.0})
+    # ... and while the repository's own test files that touch the population balance run
+    cases.append({'kind': 'repo_tests', 'weight': 80.0})
     return cases
 
 
@@ -657,9 +669,71 @@ def scripted():
 
 # ================================================================================================
 
+def _run_model(case, R):
+    from vlib.precip_run import TrajectoryRun
+    cfg = case['cfg']
+    CT.drain()
+    run = TrajectoryRun(cfg, R, [], max_steps=cfg['max_steps']).execute()
+    stats, events, worst = CT.drain()
+    for m, n in stats.items():
+        R.count(m, n)
+    for k, n in events.items():
+        R.observe('model_ev:' + k, n)
+    err = run.error
+    if isinstance(err, CT.ContractViolation):
+        R.check(err.monitor, False, dict(err.mech, via_model='PrecipitateModel'), **{k: core.jsonable(v) for k, v in (err.detail or {}).items()})
+    elif err is not None:
+        R.observe('model_run_ended_by_exception')         # crashes of the model are C03's subject
+        R.info['error'] = '%s: %s' % (type(err).__name__, str(err)[:200])
+    R.observe('model_steps', run.steps)
+    R.info.update({'system': cfg['system'], 'steps': run.steps, 'remesh_calls': events.get('call:changeSizeClasses', 0),
+                   'extend_calls': events.get('call:addSizeClasses', 0)})
+    R.set_nontrivial(run.steps >= 50 and (events.get('call:changeSizeClasses', 0) + events.get('call:addSizeClasses', 0)) > 0)
+
+
+def _run_repo_tests(case, R):
+    """The repository's own tests that exercise the population balance, with the contracts switched on (pytest plugin
+    vlib/c08_pytest_plugin.py). A contract that fires there is either too strict or a defect the tests do not assert."""
+    import json as _json
+    import os
+    import subprocess
+    import sys
+    scratch = os.environ.get('KAWIN_VERIF_SCRATCH', os.path.join(core.VERIF, '.scratch', 'C08'))
+    os.makedirs(os.path.join(scratch, 'kawin', 'tests'), exist_ok=True)      # one test saves to the relative path kawin/tests/prec.npz
+    out = os.path.join(scratch, 'c08_repo_tests_%d.json' % os.getpid())
+    env = dict(os.environ)
+    env['PYTHONPATH'] = os.pathsep.join([core.REPO, core.VERIF, os.path.join(core.VERIF, '.deps')])
+    env['C08_PLUGIN_OUT'] = out
+    tests = [os.path.join(core.REPO, 'kawin', 'tests', f) for f in ('test_PBM.py', 'test_precipitation.py')]
+    cmd = [sys.executable, '-m', 'pytest', '-q', '-p', 'no:cacheprovider', '-p', 'vlib.c08_pytest_plugin', '--timeout=900',
+           '--rootdir', scratch] + tests
+    try:
+        pr = subprocess.run(cmd, cwd=scratch, env=env, stdout=subprocess.PIPE, stderr=subprocess.STDOUT, timeout=1200, text=True)
+    except subprocess.TimeoutExpired:
+        R.inconclusive = 'repository tests under contracts timed out'
+        return
+    if not os.path.exists(out):
+        R.inconclusive = 'contract plugin wrote no report: ' + pr.stdout[-400:]
+        return
+    rep = _json.load(open(out))
+    os.remove(out)
+    for m, n in rep['stats'].items():
+        R.count(m, n)
+    for v in rep['violations']:
+        R.check(v['monitor'], False, dict(v['mech'], via_model='repository_tests'), test=v.get('test'), detail=v.get('detail'))
+    R.observe('repo_tests_run', rep['tests'])
+    R.observe('repo_tests_failed', rep['failed'])
+    R.info.update({'tests': rep['tests'], 'failed': rep['failed'], 'contract_evaluations': sum(rep['stats'].values())})
+    R.set_nontrivial(rep['tests'] > 0 and sum(rep['stats'].values()) > 0)
+
+
 def run_case(case, R):
     if CT is None:
         worker_init()
+    if case['kind'] == 'model_run':
+        return _run_model(case, R)
+    if case['kind'] == 'repo_tests':
+        return _run_repo_tests(case, R)
     CT.drain()
     nontrivial = 0
     if case['kind'] == 'scripted':
